@@ -238,3 +238,47 @@ def rule_density_orientation(ctx):
                       f"`{src_of(comb) if comb is not None else '?'}` is {'conjugated' if conj_other else 'not conjugated'}: the MPO is the transpose of the reduced density matrix",
                       where=where, operand="transposed"))
     return r
+
+
+def rule_unnormalised_exponent(ctx):
+    r = RuleResult(
+        "unnormalised-exponent",
+        "a route that computes a local expectation / reduced density matrix from a *slice or selection* of the state "
+        "(self[i:j], select*(), a local cluster) loses the state's stored exponent, which a selection does not carry; when the "
+        "unnormalised value can be requested (`normalized` parameter) the route must read self.exponent (scaling by "
+        "10**(2*exponent)) — and the cluster constructor must hand the exponent to the cluster it returns",
+    )
+    SELECT = {"select", "select_any", "select_all", "_select_local_tids", "select_local"}
+    n = 0
+    for modname in ("quimb.tensor.tn1d.core", "quimb.tensor.tnag.core"):
+        mod = ctx.prog.modules.get(modname)
+        for f in mod.all_functions:
+            if f.is_alias or isinstance(f.node, ast.Lambda) or f.cls is None or f.parent is not None:
+                continue
+            is_cluster_ctor = f.name == "get_cluster"
+            if "normalized" not in f.params and not is_cluster_ctor:
+                continue
+            sliced = [x for x in _own_walk(f.node) if isinstance(x, ast.Subscript) and isinstance(x.value, ast.Name) and x.value.id == "self" and isinstance(x.slice, ast.Slice)]
+            selected = [x for x in _own_walk(f.node) if isinstance(x, ast.Call) and isinstance(x.func, ast.Attribute) and x.func.attr in SELECT
+                        and not any(k.arg == "with_exponent" and isinstance(k.value, ast.Constant) and k.value.value is True for k in x.keywords)]
+            if not sliced and not selected:
+                continue
+            # only routes that turn the selection into a value themselves (contract / to_dense), or the cluster constructor
+            evaluates = any(isinstance(x, ast.Call) and isinstance(x.func, ast.Attribute) and x.func.attr in ("contract", "to_dense") for x in _own_walk(f.node))
+            if not evaluates and not is_cluster_ctor:
+                continue
+            n += 1
+            # the read has to reach a value (an assignment / argument), a read inside a branch test alone scales nothing
+            in_tests = {id(y) for x in _own_walk(f.node) if isinstance(x, (ast.If, ast.IfExp, ast.While)) for y in ast.walk(x.test)}
+            reads = any(isinstance(x, ast.Attribute) and x.attr == "exponent" and isinstance(x.value, ast.Name) and x.value.id == "self" and id(x) not in in_tests for x in _own_walk(f.node))
+            construct = f.qualname
+            if reads:
+                r.ok(construct, sample={"route": f.qualname, "built from": "slice of self" if sliced else src_of(selected[0])[:40], "exponent": "read"})
+            else:
+                what = "a slice of the state" if sliced else f"`{src_of(selected[0])[:40]}`"
+                r.bad(Finding("unnormalised-exponent", construct,
+                              f"computes its value from {what}, which does not carry self.exponent, and never reads self.exponent: with normalized=False the value "
+                              "is off by 10**(2*exponent) for any state with a stored exponent (e.g. after equalize_norms_(1.0))",
+                              where=f"{f.module.relpath}:{f.lineno}", operand="exponent"))
+    r.floor(n, 3, "expectation routes built from a selection of the state")
+    return r
